@@ -95,6 +95,14 @@ Definition writes_after (c : dcase) (i p : nat) : bool :=
                      match snd (snd pe) with Some (k, true) => is_write k | _ => false end)
           (indexed (dc_events c)).
 
+(* the first access of actor i, whatever it is *)
+Definition first_any (c : dcase) (i : nat) : option nat :=
+  option_map fst (find (fun pe => Nat.eqb (fst (snd pe)) i) (indexed (dc_events c))).
+Definition writes_after_incl (c : dcase) (i p : nat) : bool :=
+  existsb (fun pe => Nat.leb p (fst pe) && Nat.eqb (fst (snd pe)) i &&
+                     match snd (snd pe) with Some (k, true) => is_write k | _ => false end)
+          (indexed (dc_events c)).
+
 Definition spec_ok (c : dcase) : bool :=
   if dc_count_only c then Nat.leb (List.length (dc_bundles c)) 1 else
   let dones := ok_writes c KWriteDone in
@@ -107,8 +115,8 @@ Definition spec_ok (c : dcase) : bool :=
   (* whoever starts after the diamond is terminated writes nothing *)
   match dones with
   | (pd, _) :: _ =>
-      forallb (fun i => match first_pos c i KReady with
-                        | Some p => if Nat.ltb pd p then negb (writes_after c i p) else true
+      forallb (fun i => match first_any c i with
+                        | Some p => if Nat.ltb pd p then negb (writes_after_incl c i p) else true
                         | None => true end) (seq 0 (List.length (dc_actors c)))
   | [] => true
   end &&
